@@ -6,10 +6,10 @@
    Reading guide.  A store holds pulse objects (shallow / deep copies, fresh pulses).  [Call i o k] is the
    public operation o on object i; k = Some n makes the (n+1)-th call into numeric code raise, k = never
    (None) injects nothing.  A cached value carries a ghost tag: TF g = "is the correct value for the
-   frequency grid g", TI = frequency independent, TBad = wrong data, TE e / TFE g e = expressed in an
-   eigen-decomposition other than the one numeric.diagonalize returns.  [gop_ok] = the two hypotheses on
-   histories: user-supplied arrays are what the caller says, and no object made by extend / remap with cached
-   diagonalization (FreshExtended) takes part -- for those the statement is REFUTED, C07_extended_refuted. *)
+   frequency grid g", TI = frequency independent / canonical eigenbasis, TBad = wrong data, TE e / TFE g e =
+   expressed in an eigen-decomposition other than the one numeric.diagonalize returns (pulses made by extend /
+   remap with cached diagonalization: store operation FreshExtended).  [gop_ok] = user-supplied arrays are what
+   the caller says (the only hypothesis on histories).                                                      *)
 From Coq Require Import List Bool Arith NArith.
 From FF Require Import Extracted.Src Model.Cache Model.Tie.C07 Proofs.Cache.
 Import ListNotations.
@@ -17,14 +17,21 @@ Import ListNotations.
 (* The invariant: for every object, every cached frequency-dependent attribute and every frequency-dependent
    entry of _intermediates is the value for that object's current _omega (so _omega is present whenever
    one of them is; the pulse-correlation slots agree with each other because all agree with _omega);
-   frequency-independent slots hold frequency-independent values; no two objects share an _intermediates dict. *)
+   frequency-independent slots hold frequency-independent values; the eigen-data and every intermediate
+   expressed in an eigenbasis refer to one and the same eigen-decomposition e, and such intermediates are present
+   only together with it; no two objects share an _intermediates dict. *)
 Theorem C07_coherent_meaning : forall st i, Coherent st -> i < nobj st ->
   (forall s t, slot_kind s = KFD -> objs st i s = Some t ->
      exists g, objs st i S_omega = Some (TF g) /\ t = TF g) /\
-  (forall k t, key_fd k = true -> dicts st (iref st i) k = Some t ->
+  (forall k t, key_kind k = KFD -> dicts st (iref st i) k = Some t ->
      exists g, objs st i S_omega = Some (TF g) /\ t = TF g) /\
   (forall s t, slot_kind s = KFI -> objs st i s = Some t -> t = TI) /\
-  (forall k t, key_fd k = false -> dicts st (iref st i) k = Some t -> t = TI).
+  (exists e, edec e /\
+     (forall s t, slot_kind s = KE -> objs st i s = Some t -> t = e) /\
+     (forall k t, key_kind k = KE -> dicts st (iref st i) k = Some t ->
+        t = e /\ objs st i S_eigvecs = Some e) /\
+     (forall t, dicts st (iref st i) K_first_order_integral = Some t ->
+        exists g, objs st i S_omega = Some (TF g) /\ t = foi_tag g e /\ objs st i S_eigvecs = Some e)).
 Proof. exact coherent_meaning. Qed.
 Print Assumptions C07_coherent_meaning.
 
@@ -32,8 +39,9 @@ Theorem C07_coherent_init : Coherent init.
 Proof. exact coherent_init. Qed.
 Print Assumptions C07_coherent_init.
 
-(* every operation of the alphabet (25 kinds of calls with all their options, copy, deepcopy, new pulse),
-   every requested grid, every point at which the call is aborted by an exception *)
+(* every operation of the alphabet (26 kinds of calls with all their options, copy, deepcopy, new pulse, new
+   pulse made by extend with cached diagonalization), every requested grid, every point at which the call is
+   aborted by an exception *)
 Theorem C07_coherent_step : forall st c, Coherent st -> gop_ok c = true -> Coherent (step st c).
 Proof. exact coherent_step. Qed.
 Print Assumptions C07_coherent_step.
@@ -82,8 +90,8 @@ Theorem C07_pulse_correlation_consistent : forall st i o og k, Coherent st -> i 
 Proof. exact pc_consistent. Qed.
 Print Assumptions C07_pulse_correlation_consistent.
 
-(* The theorem depends on the three repairs (fix: commits 9802619, 35d842e, 031d19d) and on its hypothesis:
-   with any one of them switched off the model reproduces the defect of the pinned code. *)
+(* The theorem depends on the five repairs (fix: commits 9802619, 35d842e, 031d19d, 9d58c0f, 0d133f1) and on its
+   hypothesis: with any one of them switched off the model reproduces the defect of the earlier code. *)
 Theorem C07_cache_clear_needed :
   forallb gop_ok hist_a = true /\
   ~ Coherent (run_with no_clear hist_a) /\
@@ -109,42 +117,35 @@ Theorem C07_correct_user_data_needed :
   result_with fixed (run_with fixed hist_d) (Call 0 (GetCM g1 false) never) = Ret (Some (TBad 4, Served)).
 Proof. exact correct_user_data_needed. Qed.
 
-(* REFUTED (finding c07-eig-intermediates, reproduced on the implementation): on a pulse made by extend(...) with
-   cached diagonalization (object 1 of hist_x), after get_control_matrix(omega, cache_intermediates=True) and
-   cleanup('conservative'), the second-order filter function, the filter-function derivative and the second-order
-   cumulant function for the SAME frequencies are computed from intermediates expressed in the dropped eigenbasis
-   and freshly computed eigen-data; without the clean-up, or on a plain pulse, the same requests are correct. *)
-Theorem C07_extended_refuted :
-  forallb gop_ok hist_x = false /\
-  result_with fixed (run_with fixed hist_x) (Call 1 (GetFF g1 Fidelity Second false) never) = Ret (Some (TBad 4, Computed)) /\
-  result_with fixed (run_with fixed hist_x) (Call 1 (GetDeriv g1) never) = Ret (Some (TBad 4, Computed)) /\
-  result_with fixed (run_with fixed hist_x) (Call 1 (Cumulant g1 Total true None) never) = Ret (Some (TBad 4, Computed)) /\
-  result_with fixed (run_with fixed [FreshExtended; Call 1 (GetCM g1 true) never])
-              (Call 1 (GetFF g1 Fidelity Second false) never) = Ret (Some (TF g1, Computed)) /\
-  result_with fixed (run_with fixed [Fresh; Call 1 (GetCM g1 true) never; Call 1 (Cleanup Conservative) never])
-              (Call 1 (GetFF g1 Fidelity Second false) never) = Ret (Some (TF g1, Computed)).
-Proof. exact extended_refuted. Qed.
-(* the proposed repair (cleanup('conservative') also removes n_opers_transformed, basis_transformed and
-   first_order_integral) gives the right values on these witnesses *)
-Theorem C07_extended_repaired :
-  result_with proposed (run_with proposed hist_x) (Call 1 (GetFF g1 Fidelity Second false) never) = Ret (Some (TF g1, Computed)) /\
-  result_with proposed (run_with proposed hist_x) (Call 1 (GetDeriv g1) never) = Ret (Some (TF g1, Computed)) /\
-  result_with proposed (run_with proposed hist_x) (Call 1 (Cumulant g1 Total true None) never) = Ret (Some (TF g1, Computed)).
-Proof. exact extended_repaired. Qed.
+(* cleanup('conservative') must reset the intermediates (commit 9d58c0f): without that, on a pulse made by
+   extend(...) with cached diagonalization (object 1 of hist_x), after get_control_matrix(omega,
+   cache_intermediates=True) and cleanup('conservative'), the second-order filter function, the filter-function
+   derivative and the second-order cumulant function for the SAME frequencies are computed from intermediates
+   expressed in the dropped eigenbasis and freshly computed eigen-data. *)
+Theorem C07_cleanup_reset_needed :
+  forallb gop_ok hist_x = true /\
+  ~ Coherent (run_with no_reset hist_x) /\
+  result_with no_reset (run_with no_reset hist_x) (Call 1 (GetFF g1 Fidelity Second false) never) = Ret (Some (TBad 4, Computed)) /\
+  result_with no_reset (run_with no_reset hist_x) (Call 1 (GetDeriv g1) never) = Ret (Some (TBad 4, Computed)) /\
+  result_with no_reset (run_with no_reset hist_x) (Call 1 (Cumulant g1 Total true None) never) = Ret (Some (TBad 4, Computed)) /\
+  result_with fixed (run_with fixed hist_x) (Call 1 (GetFF g1 Fidelity Second false) never) = Ret (Some (TF g1, Computed)) /\
+  result_with fixed (run_with fixed hist_x) (Call 1 (GetDeriv g1) never) = Ret (Some (TF g1, Computed)) /\
+  result_with fixed (run_with fixed hist_x) (Call 1 (Cumulant g1 Total true None) never) = Ret (Some (TF g1, Computed)).
+Proof. exact cleanup_reset_needed. Qed.
 
-(* REFUTED outside the abstraction "grids are immutable values" (finding c07-omega-alias): the object keeps a
-   reference to the caller's frequency array; after the caller has overwritten it in place with g', a request
-   with that array is served the filter function of the old grid g.  With a private copy it is not. *)
-Theorem C07_omega_alias_refuted : forall g g', g <> g' ->
+(* The abstraction "grids are immutable values" is justified by the private copy of the frequencies (commit
+   0d133f1): with a reference to the caller's array, after the caller has overwritten it in place with g', a
+   request with that array is served the filter function of the old grid g; with the copy it is not. *)
+Theorem C07_omega_copy_needed : forall g g', g <> g' ->
   let s1 := fst (astep (ainit g) ARequest) in
   let s2 := fst (astep s1 (AMutate g')) in
   cell s2 = g' /\ snd (astep s2 ARequest) = Some g.
-Proof. exact omega_alias_refuted. Qed.
-Theorem C07_omega_copy_repaired : forall g g', g <> g' ->
+Proof. exact omega_copy_needed. Qed.
+Theorem C07_omega_copy_works : forall g g', g <> g' ->
   let s1 := fst (astep_copy (ainit g, g) ARequest) in
   let s2 := fst (astep_copy s1 (AMutate g')) in
   snd (astep_copy s2 ARequest) = Some g'.
-Proof. exact omega_copy_repaired. Qed.
+Proof. exact omega_copy_works. Qed.
 
 (* the hypotheses are satisfiable on a non-trivial store (three objects, intermediates, an aborted call) *)
 Example C07_hypotheses_satisfiable :
